@@ -272,7 +272,7 @@ def gen(repo):
            "From Coq Require Import String List NArith.", "Import ListNotations.", "Local Open Scope string_scope.", "",
            "(* accesses to sharded maps whose guard region was determined: %s *)" % ", ".join("%s=%d" % kv for kv in sorted(by.items())),
            "Definition map_access_sites : N := %d%%N." % len(sites), "",
-           "(* accesses whose shard guard is alive across an await point, and non-blocking (try_*) lookups, which can miss a",
+           "(* accesses whose shard guard is alive across an await point, and non-blocking lookups (the try_ family), which can miss a",
            "   present entry while its shard is locked *)",
            "Definition guard_across_await : list string := [" + ";\n  ".join(q(b) for b in bad) + "].", ""]
     return "\n".join(out)
